@@ -277,6 +277,17 @@ Crash(w) ==
   /\ crashes' = crashes + 1
   /\ UNCHANGED <<entry, now, script>> /\ Frame(MutVars)
 
+\* environment (harness: UPDATE of the attempts column): a long outage - every idle
+\* pending entry has meanwhile failed n delivery attempts.  Backoff is a function of
+\* the attempt number, so this reaches attempt numbers no short program gets to.
+Idle(id) == Pending(id) /\ entry[id].owner = 0
+PresetAttempts(n) ==
+  /\ tx.stage = "none" /\ \A w \in Workers : fl[w] = NoFl
+  /\ n >= 0 /\ (cfg.maxAttempts = 0 \/ n < cfg.maxAttempts)
+  /\ entry' = [id \in Ids |-> IF Idle(id) /\ entry[id].attempts < n
+                              THEN [entry[id] EXCEPT !.attempts = n] ELSE entry[id]]
+  /\ UNCHANGED <<now, script, fl, own, nown, crashes>> /\ Frame(MutVars)
+
 \* time passes to the next instant at which something becomes claimable
 TimePoints == {entry[id].nextAt : id \in {i \in Ids : Pending(i)}}
               \cup {entry[id].until : id \in {i \in Ids : Pending(i) /\ entry[i].owner # 0}}
